@@ -5,7 +5,8 @@
 (* that fails, one verdict line per trace.                                                                         *)
 (*                                                                                                                *)
 (* A trace is [name, ev |-> <<events>>]; an event is a record with a kind k:                                       *)
-(*   "Roadm"  one ROADM crossing           (C06: Equalises, NeverAmplifies, NotAboveTarget, LossApplied, SinglePolicy)*)
+(*   "Roadm"  one ROADM crossing           (C06: Equalises, NeverAmplifies, NotAboveTarget, LossApplied, Reported,    *)
+(*                                          SinglePolicy)                                                         *)
 (*   "Edfa"   one amplifier crossing       (C04: EffLaw, PadLaw, GainLaw, NeverAbovePmax, FlatProfile, AseLaw,       *)
 (*                                               PoutReported, OutOfBand)                                           *)
 (*   "Sweep"  NF of one amplifier type over increasing gains (C04: NfMinAtFlatMax, NfMaxAtGainMin, NonIncreasing,    *)
@@ -26,8 +27,9 @@ TolNoAmp   == 1           \* out <= in: only the rounding of the two sides
 TolTilt    == 50000       \* GainLaw with tilt or ripple on a non-flat input comb (three-point solver), 50 mdB
 TolNfEnd   == 11000       \* nf(flatMax) = nfMin, nf(gainMin) = nfMax: the loader accepts 10 mdB, + 1 mdB
 TolAcc     == 3           \* 1e-3 ps/nm, ns, fs^2, mdB^2
-TolRamanLow  == 2000      \* LowPower / LumpedOnce: 2 mdB   (measured <= 0.1 mdB at -60 dBm per channel)
-TolMethods == 100000      \* MethodsAgree: 0.1 dB           (measured <= 8 mdB)
+TolRamanLow  == 2000      \* LowPower / LumpedOnce / PumpsOnlyAddGain: 2 mdB (measured 6e-8 dB at -60 dBm per channel)
+TolMethods   == 40000     \* MethodsAgree without pumps: 40 mdB          (measured 3.0 mdB: perturbative 2 @50 m vs numerical @10 m)
+TolMethodsPumped == 400000 \* MethodsAgree with counter-propagating pumps: 0.4 dB (measured 32 mdB, iterative scheme @50 m vs @10 m)
 
 VARIABLES tid, i, ref, viol
 vars == <<tid, i, ref, viol>>
@@ -40,6 +42,7 @@ RoadmClauses(e) ==
    \cup Fails("NeverAmplifies", RoadmNeverAmplifies(e, TolNoAmp))
    \cup Fails("NotAboveTarget", RoadmNotAboveTarget(e, Tol))
    \cup Fails("LossApplied", RoadmLossApplied(e, Tol))
+   \cup Fails("Reported", RoadmReported(e, Tol))
    \cup Fails("SinglePolicy", e.npol = 1)
 
 EdfaClauses(e) ==
@@ -78,7 +81,8 @@ RamanClauses(e) ==
    CASE e.k = "LowPower"  -> Fails("LowPower", \A j \in 1..Len(e.ch) : Within(e.ch[j].a, e.ch[j].b, TolRamanLow))
      [] e.k = "LumpedOnce" -> Fails("LumpedOnce", \A j \in 1..Len(e.ch) : Within(e.ch[j].a, e.ch[j].b + e.lumped, TolRamanLow))
      [] e.k = "PumpsOnlyAddGain" -> Fails("PumpsOnlyAddGain", \A j \in 1..Len(e.ch) : e.ch[j].a <= e.ch[j].b + TolRamanLow)
-     [] e.k = "MethodsAgree" -> Fails("MethodsAgree", \A j \in 1..Len(e.ch) : Within(e.ch[j].a, e.ch[j].b, TolMethods))
+     [] e.k = "MethodsAgree" -> Fails("MethodsAgree", \A j \in 1..Len(e.ch) :
+                                         Within(e.ch[j].a, e.ch[j].b, IF e.pumped = 1 THEN TolMethodsPumped ELSE TolMethods))
 
 StepClauses(e, r) ==
    CASE e.k = "Roadm" -> RoadmClauses(e)
